@@ -330,11 +330,18 @@ def gp_homotopy_run(script, ts=0.0, d0=1.0):
         def function(self, op, em):
             return op.state(self._var)
 
+    evec = ca.MX.sym("evec", 2)
+
     class P(Base):
         def homotopy_options(self):
             o = super().homotopy_options()
             o.update({"homotopy_parameter": "hth", "theta_start": ts, "delta_theta_0": d0, "delta_theta_min": 0.01})
             return o
+
+        @property
+        def extra_variables(self):
+            # a vector-valued extra variable of the user next to the violation variables of the goals
+            return super().extra_variables + [evec]
 
         def path_goals(self):
             return [G(1, "y"), G(2, "w")]
@@ -363,7 +370,7 @@ def gp_homotopy_run(script, ts=0.0, d0=1.0):
                         ok = script[k] if k < len(script) else True
                         n = nlp["x"].shape[0]
                         xs = np.array(x0).ravel()
-                        fi = ca.Function("i", [prob.solver_input], [ca.vertcat(*[prob.state_vector(v_, 0) for v_ in ("y", "w", "u")])])
+                        fi = ca.Function("i", [prob.solver_input], [ca.vertcat(*[prob.state_vector(v_, 0) for v_ in ("y", "w", "u", "evec")])])
                         mine = [int(round(float(q))) for q in np.array(fi(ca.DM(list(range(n))))).ravel()]
                         log.append({"theta": float(prob.parameters(0)["hth"]), "priority": prob._cur_prio, "ok": bool(ok),
                                     "x0": float(xs[0]), "x0_model_variables": [float(xs[i]) for i in mine]})
